@@ -40,7 +40,7 @@ func (s *sequenceNumberGenerator) Next() uint32 {
 	return atomic.AddUint32(&s.Current, 1)
 }
 
-func (s sequenceNumberGenerator) CurrentValue() uint32 {
+func (s *sequenceNumberGenerator) CurrentValue() uint32 {
 	return atomic.LoadUint32(&s.Current)
 }
 
@@ -117,7 +117,7 @@ func (u *Upstream) stateWithoutLock() *UpstreamState {
 	}
 	res.LastIssuedSequenceNumber = u.sequence.CurrentValue()
 	res.DataPointsBuffer = make(DataPointGroups, 0, len(u.sendBuffer))
-	res.TotalDataPoints = u.totalDataPoints
+	res.TotalDataPoints = atomic.LoadUint64(&u.totalDataPoints)
 	for k, v := range u.sendBuffer {
 		k := k
 		// deep copy
